@@ -80,7 +80,31 @@ func buildClientModel(p *Prog, ro *Roles) *clientModel {
 			}
 		}
 	}
-	for _, a := range cm.Send.AnonFuncs {
+	// the receive function: what Send returns as its function result - a closure of Send or a method value
+	// (c.receiveReply) - found through the returned MakeClosure, not by name
+	var recvCands []*ssa.Function
+	recvCands = append(recvCands, cm.Send.AnonFuncs...)
+	for _, rv := range returnedValues(cm.Send, 0) {
+		mc, ok := rv.Val.(*ssa.MakeClosure)
+		if !ok {
+			continue
+		}
+		fn, _ := mc.Fn.(*ssa.Function)
+		if fn == nil {
+			continue
+		}
+		if fn.Synthetic != "" {
+			// bound method wrapper: its body calls the method
+			for _, cs := range callsIn(fn, false) {
+				if t := cs.Common.StaticCallee(); t != nil && p.InRepo(t) {
+					recvCands = appendFn(recvCands, t)
+				}
+			}
+		} else {
+			recvCands = appendFn(recvCands, fn)
+		}
+	}
+	for _, a := range recvCands {
 		for _, cs := range callsIn(a, false) {
 			if isProtoReadBytes(cs) {
 				cm.Recv = a
